@@ -116,6 +116,7 @@ type machine struct {
 	chanCount   int
 	mayBeFull   map[*chanObj]bool
 	addrs       map[*value]uint64
+	stubs       map[string]*int
 	status      string // "", "ok", "infeasible", "error", "steplimit", "deadlock", "panic"
 	errMsg      string
 	violations  []Violation
